@@ -177,6 +177,24 @@ def r_order(prog, R):
         r.viol("remaining = head deadline - now", f.name, f.loc(f.ln), "ares_timeout_int does not compute ares_timeval_remaining(&atvbuf, &now, &query->timeout) after reading the clock")
     A, M = _pair("atvbuf."), _pair("amaxtv.")
     maxtv, tvbuf = f.params[1]["n"], f.params[2]["n"]
+    # alias safety: the caller may pass one struct for both; nothing reads *maxtv, and maxtv is never the result, after *tvbuf was written
+    wr = [(b, i) for b, i, c in f.calls() if any(is_var(nocast(a), tvbuf) for k2, a in enumerate(c.get("args", [])) if not ((c.get("constp") or [False] * 9)[k2] if k2 < len(c.get("constp") or []) else False))]
+    wr += [(b, i) for b, i, el in f.elements() if el["k"] == "asg" and any(v["n"] == tvbuf for v in vars_in(el["e"]["l"]))]
+    bad_alias = None
+    for wb, wi in wr:
+        after = reach_after(f, wb.id if hasattr(wb, "id") else wb, wi)
+        for b, i, c in f.calls():
+            if (b.id, i) in after and any(is_var(nocast(a), maxtv) for a in c.get("args", [])):
+                bad_alias = (c["ln"], "reads *%s" % maxtv)
+        for b, i, el in f.returns():
+            if (b.id, i) in after and is_var(nocast(el.get("e")), maxtv):
+                bad_alias = (el["ln"], "returns %s" % maxtv)
+    if not wr:
+        r.viol("alias-safe: maxtv consumed before tvbuf is written", f.name, f.loc(f.ln), "ares_timeout_int never writes tvbuf")
+    elif bad_alias:
+        r.viol("alias-safe: maxtv consumed before tvbuf is written", f.name, f.loc(bad_alias[0]), "ares_timeout_int %s after *%s was written: with ares_timeout(ch, &tv, &tv) the caller's maximum is overwritten first and the hint can be later than it" % (bad_alias[1], tvbuf))
+    else:
+        r.ok("alias-safe: maxtv consumed before tvbuf is written", f.loc(f.ln))
     for b, i, el, st in _ret_states(pf, f):
         e = nocast(el.get("e"))
         k = "timeout return %s under %s" % (render(e), sorted(a for a in st if a[0] in order.OPSET and ("atvbuf" in a[1] or "node" in a[1] or "maxtv" in a[1]))[:4])
@@ -414,8 +432,8 @@ def _loop_path_avoiding(f, h, body, is_barrier):
 
 
 # ---------------------------------------------------------------- wake
-def r_wake(prog, R):
-    r = R.rule("R-C07-WAKE", "whoever links a query into the deadline index wakes the event thread when that creates a new earliest deadline", floor=3, analysis="M1 must-pass-through + exact guard")
+def r_wake(prog, R, rid="R-C07-WAKE"):
+    r = R.rule(rid, "whoever links a query into the deadline index wakes the event thread when that creates a new earliest deadline", floor=3, analysis="M1 must-pass-through + exact guard")
     wakers = _wakers(prog)
     r.info["wake_functions"] = sorted(wakers)
     nins = 0
